@@ -136,7 +136,12 @@ func (t *jrTransport) SetDeadline(time.Time) error        { return nil }
 func (t *jrTransport) SetReadDeadline(time.Time) error    { return nil }
 func (t *jrTransport) SetWriteDeadline(time.Time) error   { return nil }
 func (t *jrTransport) deliver(b []byte)                   { t.mu.Lock(); t.in = append(t.in, b...); t.parked = false; t.mu.Unlock(); t.kick() }
-func (t *jrTransport) drained() bool                      { t.mu.Lock(); defer t.mu.Unlock(); return t.parked && len(t.in) == 0 }
+func (t *jrTransport) drained() bool {
+	t.mu.Lock()
+	defer t.mu.Unlock()
+	return (t.parked && len(t.in) == 0) || t.closed
+}
+func (t *jrTransport) isClosed() bool { t.mu.Lock(); defer t.mu.Unlock(); return t.closed }
 func (t *jrTransport) requests(proto int) []*memcluster.Frame {
 	t.mu.Lock()
 	defer t.mu.Unlock()
@@ -168,7 +173,7 @@ func jrFnv(b []byte) uint32 {
 	return h.Sum32()
 }
 
-type jrHang struct{ what string }
+type jrHang struct{ what, dump string }
 
 // RunJourney executes one `jr` line on the real code.
 func RunJourney(line string) (ans string) {
@@ -178,9 +183,7 @@ func RunJourney(line string) (ans string) {
 	defer func() {
 		if e := recover(); e != nil {
 			if h, ok := e.(jrHang); ok {
-				buf := make([]byte, 1<<20)
-				n := runtime.Stack(buf, true)
-				JrHangDump = "journey: " + line + "\nblocked: " + h.what + "\n\n" + string(buf[:n])
+				JrHangDump = "journey: " + line + "\nblocked: " + h.what + "\n\n" + h.dump
 				jrHung = true
 				inGocql := strings.Contains(JrHangDump, "gocql.(*Conn)")
 				ans = fmt.Sprintf("crash:hang:%s(watchdog,blocked-in-gocql=%v)", h.what, inGocql)
@@ -207,7 +210,15 @@ func RunJourney(line string) (ans string) {
 	if tmo != 0 {
 		timeout = time.Hour
 	}
-	conn := gocql.VerifC06NewConn(tr, proto, coalesce, timeout, nil)
+	var errMu sync.Mutex
+	connErr := "Conn.Close"
+	conn := gocql.VerifC06NewConn(tr, proto, coalesce, timeout, func(err error, closed bool) {
+		errMu.Lock()
+		if err != nil {
+			connErr = strings.ReplaceAll(err.Error(), " ", "_")
+		}
+		errMu.Unlock()
+	})
 	cap := conn.Cap()
 
 	// waitFor blocks until cond holds; two watchdog windows without it = hang
@@ -223,7 +234,9 @@ func RunJourney(line string) (ans string) {
 			}
 		}
 		if !cond() {
-			panic(jrHang{what})
+			buf := make([]byte, 1<<20)
+			n := runtime.Stack(buf, true) // now: the teardown that follows cancels the callers
+			panic(jrHang{what, string(buf[:n])})
 		}
 	}
 	waitDrained := func(what string) { waitFor(tr.drained, tr.notify, what) }
@@ -254,6 +267,12 @@ func RunJourney(line string) (ans string) {
 		if terminal != "" {
 			return "bad-op"
 		}
+		if tr.isClosed() {
+			// nothing in a script short of k / z entitles the driver to close the connection
+			errMu.Lock()
+			defer errMu.Unlock()
+			return fmt.Sprintf("connection-closed-by-the-driver(before %q):%s", st, connErr)
+		}
 		switch st[0] {
 		case 'q':
 			L, err := strconv.Atoi(st[1:])
@@ -267,8 +286,28 @@ func RunJourney(line string) (ans string) {
 			go func() {
 				c.res = conn.Exec(ctx, fmt.Sprintf("J%d", c.idx))
 				close(c.done)
+				tr.poke()
 			}()
-			waitFor(func() bool { return len(tr.requests(proto)) >= c.idx }, tr.notify, fmt.Sprintf("request of call %d never written", c.idx))
+			returned := func() bool {
+				select {
+				case <-c.done:
+					return true
+				default:
+					return false
+				}
+			}
+			for len(tr.requests(proto)) < c.idx && !tr.isClosed() && !returned() {
+				// (two event sources: the transport and the call itself)
+				waitFor(func() bool { return len(tr.requests(proto)) >= c.idx || tr.isClosed() || returned() }, tr.notify, fmt.Sprintf("request of call %d never written", c.idx))
+			}
+			if len(tr.requests(proto)) < c.idx && returned() && !tr.isClosed() {
+				return fmt.Sprintf("call %d returned without writing its request:%s:%v", c.idx, c.res.Class, strings.ReplaceAll(fmt.Sprint(c.res.Err), " ", "_"))
+			}
+			if len(tr.requests(proto)) < c.idx {
+				errMu.Lock()
+				defer errMu.Unlock()
+				return fmt.Sprintf("connection-closed-by-the-driver(at %q):%s", st, connErr)
+			}
 			rq := tr.requests(proto)[c.idx-1]
 			if rq.Op != memcluster.OpQuery || len(rq.Body) < 4 || !strings.HasPrefix(string(rq.Body[4:]), fmt.Sprintf("J%d", c.idx)) {
 				return fmt.Sprintf("harness-error:request %d is not the query of call %d", c.idx, c.idx)
@@ -375,6 +414,10 @@ func RunJourney(line string) (ans string) {
 		for _, c := range calls {
 			waitCall(c, fmt.Sprintf("call %d did not return after the connection was closed (%s)", c.idx, terminal))
 		}
+	} else if tr.isClosed() {
+		errMu.Lock()
+		defer errMu.Unlock()
+		return "connection-closed-by-the-driver(at the end):" + connErr
 	}
 	out = append(out, ";")
 	for _, c := range calls {
